@@ -115,7 +115,6 @@ def tInvDeleteAllR (uuid : Nat) (db : DB R) : DB R × P R :=
 def pInvDeleteAll (mv uuid : Nat) : P R :=
   if mv < 5 then .done { status := 405, code := .undefined } else .txn .getRp (tInvDeleteAllR uuid)
 
-/-- PUT traits: ConcurrentUpdateDetected is not caught by this handler (-> 500) -/
 def tRpTraitsSetW (rp gen : Nat) (traits : List Nat) (db : DB R) : DB R × P R :=
   match setTraits db rp gen traits with
   | .ok db' => (db', .done r200)
